@@ -540,6 +540,105 @@ pub fn focus_position(rng: &mut Rng, kind: usize) -> Option<([u8; 64], bool, usi
     Some((c, gold, sq, d))
 }
 
+/// "wrap" family: a piece Y of the mover on an a- or h-file square whose freezing is decided by a single
+/// real neighbour, and a piece across the board edge on the square that a missing file mask would treat
+/// as Y's neighbour.  Y stands next to an enemy piece that the mover can push (by another piece), so that
+/// Y appears as a candidate in the start-of-turn lists AND in the list of push completions.
+/// Returns (cells, gold_to_move, victim square, direction of the push start).
+pub fn wrap_position(rng: &mut Rng) -> Option<([u8; 64], bool, usize, Direction)> {
+    let dirs = [Direction::Up, Direction::Right, Direction::Down, Direction::Left];
+    let gold = rng.chance(0.5);
+    let me: u8 = if gold { 0 } else { 1 };
+    // y on file a or h, x = the square aliasing with it across the edge
+    let y = rng.below(8) * 8 + if rng.chance(0.5) { 0 } else { 7 };
+    let xs = wrap_partners(y);
+    if xs.is_empty() {
+        return None;
+    }
+    let x = xs[0];
+    let mut c = [0u8; 64];
+    let ty = 2 + rng.below(4) as u8; // cat..camel, so that something stronger and something weaker exist
+    c[y] = ty + 6 * me;
+    let ns = neighbours(y);
+    if ns.len() < 2 {
+        return None;
+    }
+    // the victim (weaker than Y) on one real neighbour, a freezer or nothing on another
+    let s = ns[rng.below(ns.len())];
+    let tv = 1 + rng.below((ty - 1) as usize) as u8;
+    c[s] = tv + 6 * (1 - me);
+    let frozen_case = rng.chance(0.6);
+    let others: Vec<usize> = ns.iter().cloned().filter(|&n| n != s).collect();
+    if frozen_case {
+        let f = others[rng.below(others.len())];
+        c[f] = ty + 1 + rng.below((6 - ty) as usize) as u8 + 6 * (1 - me); // stronger enemy: Y is frozen
+        // across the edge: a FRIEND (a wrap bug would unfreeze Y)
+        c[x] = random_piece(rng) % 6 + 1 + 6 * me;
+    } else {
+        // Y is free; across the edge: a stronger ENEMY (a wrap bug would freeze Y)
+        c[x] = ty + 1 + rng.below((6 - ty) as usize) as u8 + 6 * (1 - me);
+    }
+    // another pusher next to the victim, and an empty square for the victim to go to
+    let sn: Vec<usize> = neighbours(s).into_iter().filter(|&n| n != y && c[n] == 0).collect();
+    if sn.len() < 2 {
+        return None;
+    }
+    let pidx = rng.below(sn.len());
+    let p = sn[pidx];
+    c[p] = tv + 1 + rng.below((6 - tv) as usize) as u8 + 6 * me;
+    let dests: Vec<usize> = sn.iter().cloned().filter(|&n| n != p).collect();
+    let dest = dests[rng.below(dests.len())];
+    let d = *dirs.iter().find(|&&dd| crate::drivers::dest_of(s, dd) == Some(dest))?;
+    // a little noise around
+    for _ in 0..rng.below(4) {
+        let i = rng.below(64);
+        if c[i] == 0 && i != dest {
+            c[i] = random_piece(rng);
+        }
+    }
+    // repairs: complement, goal ranks, traps, rabbits for both
+    let mut counts = [0usize; 13];
+    for i in 0..64 {
+        let v = c[i];
+        if v == 0 {
+            continue;
+        }
+        let t = if v <= 6 { v } else { v - 6 };
+        if counts[v as usize] >= COMPLEMENT[t as usize] || (v == 1 && i < 8) || (v == 7 && i >= 56) {
+            if i == y || i == s || i == p || i == x {
+                return None;
+            }
+            c[i] = 0;
+        } else {
+            counts[v as usize] += 1;
+        }
+    }
+    for (v, lo, hi) in [(1u8, 24usize, 56usize), (7u8, 8usize, 40usize)] {
+        if counts[v as usize] == 0 {
+            for _ in 0..30 {
+                let i = lo + rng.below(hi - lo);
+                let near = [y, s, p, x, dest].iter().any(|&q| (q / 8).abs_diff(i / 8) + (q % 8).abs_diff(i % 8) <= 1);
+                if c[i] == 0 && !near && !TRAPS.contains(&i) {
+                    c[i] = v;
+                    break;
+                }
+            }
+        }
+    }
+    for &tq in TRAPS.iter() {
+        if c[tq] != 0 && !has_friend(&c, tq) {
+            if [y, s, p, x].contains(&tq) {
+                return None;
+            }
+            c[tq] = 0;
+        }
+    }
+    if !legal_position(&c) || !c.contains(&1) || !c.contains(&7) {
+        return None;
+    }
+    Some((c, gold, s, d))
+}
+
 /// C04: every combination of the five win conditions that can be realised with a few pieces.
 pub fn results_family() -> Vec<([u8; 64], bool)> {
     let mut out = Vec::new();
